@@ -36,7 +36,7 @@ func init() {
 		Run:     runC07,
 		Race:    true,
 		Par:     8,
-		Timeout: timeoutFor(10*time.Minute, 45*time.Minute),
+		Timeout: timeoutFor(3*time.Minute, 45*time.Minute),
 	})
 }
 
@@ -247,7 +247,10 @@ func runC07(w *h.W, batch int) {
 		failed := func() bool { mu.Lock(); defer mu.Unlock(); return bad != "" }
 		var wg sync.WaitGroup
 		var writersDone atomic.Int64
-		var searches, fetches, idsChecked atomic.Int64
+		var searches, fetches, idsChecked, bulksDone atomic.Int64
+		// bounded progress (the statement's "no deadlock"): while writers are unfinished some bulk, search or fetch must complete
+		stopWatch := w.StallWatch("C07:stall", 60*time.Second, func() int64 { return searches.Load() + fetches.Load() + bulksDone.Load() },
+			func() bool { return writersDone.Load() < int64(writers) }, desc)
 		for wi := 0; wi < writers; wi++ {
 			wg.Add(1)
 			wr := rr.Fork()
@@ -269,6 +272,7 @@ func runC07(w *h.W, batch int) {
 					for _, d := range bulk {
 						acked.Store(d.ID, d)
 					}
+					bulksDone.Add(1)
 					if wr.Chance(1, 3) {
 						time.Sleep(time.Duration(wr.Intn(400)) * time.Microsecond)
 					}
@@ -347,6 +351,7 @@ func runC07(w *h.W, batch int) {
 			}(ri2, rd)
 		}
 		wg.Wait()
+		stopWatch()
 		// ---- quiescence: writers idle
 		if !failed() {
 			st.WaitIdle()
